@@ -510,3 +510,25 @@ def _match_as_str(I, a, ci, dt):
 def _match_len(I, a, ci, dt):
     m = I.deref_value(a[0]) if isinstance(a[0], Ref) else a[0]
     return m.f[2] - m.f[1]
+
+
+@reg('Regex::capture_names')
+def _regex_capture_names(I, a, ci, dt):
+    """Iterator over Option<&str>: group 0 (unnamed) first, then every group in index order."""
+    from .models import ListIter
+    m = _matcher_of(I, a[0])
+    by_idx = {i: n for n, i in m.names.items()}
+    items = [NONE]
+    for i in range(1, m.ngroups + 1):
+        items.append(Some(SStr(tuple(by_idx[i].encode()), -1, 0)) if i in by_idx else NONE)
+    return ListIter(items)
+
+
+@reg('Regex::captures_len')
+def _regex_captures_len(I, a, ci, dt):
+    return _matcher_of(I, a[0]).ngroups + 1
+
+
+@reg('Regex::as_str')
+def _regex_as_str(I, a, ci, dt):
+    return SStr(tuple(_matcher_of(I, a[0]).pat if isinstance(_matcher_of(I, a[0]).pat, (bytes, tuple)) else str(_matcher_of(I, a[0]).pat).encode()), -1, 0)
